@@ -112,6 +112,7 @@ prop(
     level_note="Strings are drawn only from the chosen code page's repertoire (oracle-computed). Medium semantics: 'durable' = copy taken when flush() reaches the medium.",
     assumptions=[TRUST_CFB, TRUST_ENC, TRUST_MODEL],
     design_ref="3/C01",
+    lanes={"quick": ["checked"], "thorough": ["checked", "release", {"kind": "miri", "which": "scenarios"}]},
     min_counters={"quick": {"close_points_Flush": 500, "close_points_IntoInner": 500, "close_points_Drop": 500, "directed_scenarios": 30},
                   "thorough": {"close_points_Flush": 5000, "directed_scenarios": 30}},
 )
@@ -316,6 +317,28 @@ prop(
     assumptions=[TRUST_CFB, TRUST_CODEC],
     design_ref="3/C20",
     min_counters={"quick": {"limit_scenarios": 8, "boundary_steps_rows-65536": 15, "boundary_steps_pool-65535": 15}, "thorough": {"limit_scenarios": 8}},
+)
+
+prop(
+    "C09",
+    title="No input file can make the library panic",
+    technique="panic/abort/hang supervisor (worker subprocesses, progress file, RLIMIT_AS) around an exercise script over structure-aware and byte-level corruptions; FFI lane through the C ABI under valgrind memcheck and AddressSanitizer; Miri smoke lane",
+    rule="inputs = 24 seed packages (library histories + one encoded database per encoder option) x mutators: any catalog/user cell := null / dangling / huge reference / "
+         "extreme number; table streams truncated / extended / removed / emptied; pool header and entries (unknown code page, flipped reference width, lengths beyond the "
+         "data, zero refcount with text, long-string escapes, under/over-counts); property sets (BOM, version, OS, section/property offsets, counts, lengths, types, duplicate "
+         "ids, code-page property type); root class id; byte substitutions, bit flips, truncation, splices, random bytes. Each input: open, describe, select + iterate every "
+         "table, joins, summary getters, list/read streams, then update/insert/delete on every table, create/drop table, stream calls, summary setters, flush. distinct = "
+         "(mutation class, mutation kind, opened?, number of API calls reached)",
+    level_text="Every input is executed in an isolated worker process under a panic hook with backtrace attribution; process death and (re-confirmed) hangs are attributed to "
+               "the exact case. The same corpus is pushed through get_information/get_table/free_* of msi_ffi from a C-ABI driver, plain (quick: 300 files), under valgrind "
+               "memcheck with leak checking (quick: 3, thorough: 200) and under AddressSanitizer (thorough: 2,000); Miri interprets the exercise on 8 corrupted inputs (thorough).",
+    level_note="'Every byte sequence' is sampled, never exhausted. A sanitizer that fails to start is inconclusive for that lane, not a violation.",
+    assumptions=[TRUST_CFB, "panics inside dependencies count when reached through the public API"],
+    design_ref="3/C09",
+    lanes={"quick": ["checked", {"kind": "ffi-plain", "n": 300}, {"kind": "ffi-valgrind", "n": 3}],
+           "thorough": ["checked", "release", {"kind": "ffi-plain", "n": 20000}, {"kind": "ffi-asan", "n": 2000}, {"kind": "ffi-valgrind", "n": 200}, {"kind": "miri", "which": "exercise"}]},
+    min_counters={"quick": {"inputs_that_opened": 5000, "inputs_cell": 5000, "inputs_propset": 3000, "ffi_tables_fetched": 100},
+                  "thorough": {"inputs_that_opened": 100000}},
 )
 
 ALL_IDS = ["C%02d" % i for i in range(1, 21)]
